@@ -232,6 +232,12 @@ pub fn run_all<F>(scs: Vec<Scenario>, fam: &'static str, stats: &mut Stats, judg
 where
     F: Fn(&Scenario, &Outcome) -> Vec<(String, String)> + Sync,
 {
+    // replay mode: only the scenario with the given description, verbosely
+    let only = std::env::var("MC_ONLY_DESC").ok();
+    let scs: Vec<Scenario> = match &only {
+        Some(d) => scs.into_iter().filter(|s| &s.desc == d).collect(),
+        None => scs,
+    };
     let next = AtomicUsize::new(0);
     let fails: Mutex<Vec<Failure>> = Mutex::new(vec![]);
     let outcomes: Mutex<BTreeMap<String, usize>> = Mutex::new(BTreeMap::new());
@@ -247,6 +253,20 @@ where
                 let s = &scs[i];
                 let o = execute(i, &s.tree, &s.run);
                 let fs = judge(s, &o);
+                if only.is_some() {
+                    println!("scenario: {}\ntree:", s.desc);
+                    for (p, b) in &s.tree.files {
+                        println!("  {} = {:?}", p, String::from_utf8_lossy(b).chars().take(200).collect::<String>());
+                    }
+                    println!("cwd: {:?}\nargv: {:?}\nexit status: {}\nstdout: {:?}\nstderr: {:?}", s.run.cwd, s.run.argv, o.code, String::from_utf8_lossy(&o.stdout).chars().take(2000).collect::<String>(), String::from_utf8_lossy(&o.stderr).chars().take(1000).collect::<String>());
+                    println!("files after the run:");
+                    for (p, v) in &o.after {
+                        if !p.ends_with('/') {
+                            println!("  {} = {:?}", p, String::from_utf8_lossy(&v.0).chars().take(200).collect::<String>());
+                        }
+                    }
+                    println!("verdict of the oracle: {:?}", fs);
+                }
                 {
                     let mut oc = outcomes.lock().unwrap();
                     *oc.entry(format!("exit={}", o.code)).or_insert(0) += 1;
